@@ -106,9 +106,31 @@ def h_train(ctx, cfg):
     try:
         cli_main(ctx, "batchie.cli.train_model", data=sfn, model_cls=cls, model_params={"n_embedding_dimensions": 1},
                  output=ctx.tmp("thetas.h5"), n_samples=1, n_burnin=0, thin=1, n_chains=1, chain_index=0, seed=0)
+    except PoisonUsed:
+        ctx.fail("a masked observation value was read while training the model", key="%s: masked value read during training" % cfg["model"])
     finally:
         tm.sampling.sample = saved
     model = captured["model"]
+    if not ctx.symbolic:
+        # replay: a second training run that differs only in the masked values must hand the same data to the sampler
+        first = (list(model.wrapped_model.y), dict(getattr(model, "single_effect_lookup", {})))
+        obs2 = [obs_sym[i] if mask[i] else 0.61 + 0.01 * i for i in range(R)]
+        concrete_screen(ctx, rows, observations=obs2, mask=mask).save_h5(sfn)
+        tm.sampling.sample = fake_sample
+        try:
+            cli_main(ctx, "batchie.cli.train_model", data=sfn, model_cls=cls, model_params={"n_embedding_dimensions": 1},
+                     output=ctx.tmp("thetas2.h5"), n_samples=1, n_burnin=0, thin=1, n_chains=1, chain_index=0, seed=0)
+        finally:
+            tm.sampling.sample = saved
+        m2 = captured["model"]
+        second = (list(m2.wrapped_model.y), dict(getattr(m2, "single_effect_lookup", {})))
+        import math
+        def _same(a, b):
+            return a == b or (isinstance(a, float) and isinstance(b, float) and math.isnan(a) and math.isnan(b)) or abs(a - b) < 1e-12
+        same = len(first[0]) == len(second[0]) and all(_same(float(a), float(b)) for a, b in zip(first[0], second[0]))
+        same = same and sorted(first[1]) == sorted(second[1]) and all(_same(float(first[1][k]), float(second[1][k])) for k in first[1])
+        ctx.prove(same, "a masked observation value was read while training the model", key="%s: masked value read during training" % cfg["model"])
+        model = m2
     wm = model.wrapped_model
     sid, tid = screen.sample_ids.tolist(), screen.treatment_ids.tolist()
     if cfg["model"] == "combo":
